@@ -70,12 +70,17 @@ func c06Content(k, n int) (content string, paths bool) {
 // `panic` / `budget` are violations).
 func c06Cores(s *Server, uri protocol.DocumentURI, content string, paths bool) {
 	ctx := context.Background()
-	journal, _ := parser.Parse(content)
+	journal, perrs := parser.Parse(content)
 	res := analyzer.New().Analyze(journal)
 	_ = res
 	toks := tokenizeForSemantics(content)
 	data := encodeTokens(toks)
 	zzverif.Assert(len(data) == 5*len(toks), "semantic token data has five numbers per token")
+	// probes compared between the engine's path and the native replay of its model
+	zzverif.Observe("transactions", len(journal.Transactions))
+	zzverif.Observe("directives", len(journal.Directives))
+	zzverif.Observe("parseErrors", len(perrs))
+	zzverif.Observe("semanticTokens", len(toks))
 	_ = findTransactionFolds(content)
 	_ = findDirectiveFolds(content)
 	_ = findCommentBlockFolds(content)
